@@ -1,6 +1,7 @@
 import Prism.Model.Png
 import Prism.Model.Jpeg
 import Prism.Model.Webp
+import Prism.Proofs.C05Chunks
 
 /-!
 # C05 — reported dimensions, bit depth and format equal the header's (partial)
@@ -11,10 +12,18 @@ every field at once: all 2³²·2³² PNG dimensions and all bit depths / colour
 flags, all 2¹⁶·2¹⁶ JPEG dimensions, precisions and component counts, all 14-bit VP8/VP8L and
 24-bit VP8X dimensions.
 
-Partial: the theorems are for the canonical layouts (header structures directly followed by the
-start of pixel data).  Arbitrary sequences of ancillary chunks / marker segments in front are
-covered by the correspondence stream (random ancillary sequences, compared with the model and
-with the standard decoders' `DecodeConfig`), not yet by an induction over the segment list.
+The statements are lifted to arbitrary surroundings by induction (compositional evaluation of
+parser programs, `Prism/Proofs/Lemmas/Run.lean`):
+
+* `Png.C05_png_any_ancillary(_pure)` (`Proofs/C05Chunks.lean`): **any list of ancillary chunks**
+  between IHDR and IDAT;
+* `Jpeg.C05_jpeg_any_segments(_pure)` (`Proofs/C06Stream.lean`): **any lists of well-formed marker
+  segments** before and after the frame header, SOS or EOI, anything after.
+
+Partial: WebP has no variable surroundings for VP8/VP8L (the header is at a fixed offset); the
+VP8X theorem is for the canonical layout.  That the byte strings the theorems quantify over are
+what real encoders emit is the correspondence's business (files built by the harness are also
+decoded by the standard library's `DecodeConfig`).
 -/
 
 namespace Prism
